@@ -1100,7 +1100,7 @@ theorem noSpace_tail :
       rcases mem_canonQuery h1 with rfl | rfl | ⟨y, hy, hcy⟩
       · decide
       · decide
-      · simp only [requote, Bool.false_eq_true, if_false] at hcy
+      · simp only [requoteItem, Bool.false_eq_true, if_false] at hcy
         exact noSpace_safelyUnquote _
           (noCtl_of_sub hpc h (fun x hx => h.split.sub_query (hy hx))) c hcy
     · decide
